@@ -60,6 +60,46 @@ Definition xwrap (s : stmt) : res xstmt :=
   | SLabel _ _ => OutFrag
   end.
 
+(* the try arm of parseStmt after the `try`; plist: parseStmtList after its '{' *)
+Definition try_catch (plist : list token -> res (list xstmt * list token)) (r2 : list token)
+  : res (option (option (list Z) * list xstmt) * list token) :=
+  match r2 with
+  | a :: ra =>
+      if ty a =? tt_CatchToken then
+        '(n, rb) <~ match ra with
+                   | p :: n :: rp =>
+                       if ty p =? tt_OpenParenToken then
+                         if (ty n =? tt_OpenBracketToken) || (ty n =? tt_OpenBraceToken) || (ty n =? tt_YieldToken) || (ty n =? tt_AwaitToken) then OutFrag
+                         else if negb (is_identifier (ty n)) then Fail
+                         else rq <~ expect tt_CloseParenToken rp ;; Ok (Some (data n), rq)
+                       else Ok (None, ra)
+                   | [p] => if ty p =? tt_OpenParenToken then Fail else Ok (None, ra)
+                   | [] => Ok (None, ra)
+                   end ;;
+        rc <~ expect tt_OpenBraceToken rb ;;
+        '(l, rd) <~ plist rc ;;
+        Ok (Some (n, l), rd)
+      else if ty a =? tt_FinallyToken then Ok (None, r2)
+      else Fail
+  | [] => Fail
+  end.
+
+Definition try_fin (plist : list token -> res (list xstmt * list token)) (r3 : list token)
+  : res (option (list xstmt) * list token) :=
+  match r3 with
+  | a :: ra =>
+      if ty a =? tt_FinallyToken then rb <~ expect tt_OpenBraceToken ra ;; '(l, rc) <~ plist rb ;; Ok (Some l, rc)
+      else Ok (None, r3)
+  | [] => Ok (None, r3)
+  end.
+
+Definition try_arm (plist : list token -> res (list xstmt * list token)) (rest : list token) : res (xstmt * list token) :=
+  r1 <~ expect tt_OpenBraceToken rest ;;
+  '(b, r2) <~ plist r1 ;;
+  '(c, r3) <~ try_catch plist r2 ;;
+  '(f, r4) <~ try_fin plist r3 ;;
+  Ok (XTry b c f, skip_semi false r4).
+
 (* the initialiser of a for statement (In flag off), up to its ';' *)
 Definition for_init (r1 : list token) : res (xfinit * list token) :=
   match r1 with
@@ -159,38 +199,7 @@ Fixpoint parse_xstmt (n : nat) (w2f : bool) (ts : list token) {struct n} : res (
         r3 <~ expect tt_CloseParenToken r2 ;;
         '(s, r4) <~ parse_xstmt m w2f r3 ;;
         Ok (XWith c s, skip_semi false r4)
-      else if ty k =? tt_TryToken then
-        r1 <~ expect tt_OpenBraceToken rest ;;
-        '(b, r2) <~ parse_xlist m w2f r1 [] ;;
-        (* catch [ ( BindingIdentifier ) ] Block *)
-        '(c, r3) <~ match r2 with
-                   | a :: ra =>
-                       if ty a =? tt_CatchToken then
-                         '(n, rb) <~ match ra with
-                                    | p :: n :: rp =>
-                                        if ty p =? tt_OpenParenToken then
-                                          if (ty n =? tt_OpenBracketToken) || (ty n =? tt_OpenBraceToken) || (ty n =? tt_YieldToken) || (ty n =? tt_AwaitToken) then OutFrag
-                                          else if negb (is_identifier (ty n)) then Fail
-                                          else rq <~ expect tt_CloseParenToken rp ;; Ok (Some (data n), rq)
-                                        else Ok (None, ra)
-                                    | [p] => if ty p =? tt_OpenParenToken then Fail else Ok (None, ra)
-                                    | [] => Ok (None, ra)
-                                    end ;;
-                         rc <~ expect tt_OpenBraceToken rb ;;
-                         '(l, rd) <~ parse_xlist m w2f rc [] ;;
-                         Ok (Some (n, l), rd)
-                       else if ty a =? tt_FinallyToken then Ok (None, r2)
-                       else Fail
-                   | [] => Fail
-                   end ;;
-        '(f, r4) <~ match r3 with
-                   | a :: ra =>
-                       if ty a =? tt_FinallyToken then
-                         rb <~ expect tt_OpenBraceToken ra ;; '(l, rc) <~ parse_xlist m w2f rb [] ;; Ok (Some l, rc)
-                       else Ok (None, r3)
-                   | [] => Ok (None, r3)
-                   end ;;
-        Ok (XTry b c f, skip_semi false r4)
+      else if ty k =? tt_TryToken then try_arm (fun ts' => parse_xlist m w2f ts' []) rest
       else if ty k =? tt_ThrowToken then
         match rest with
         | c :: _ => if lt c then Fail else '(e, r) <~ parse true prec_OpExpr rest ;; Ok (XThrow e, skip_semi true r)
